@@ -11,6 +11,7 @@ import (
 	"time"
 
 	netty "github.com/go-netty/go-netty"
+	"github.com/go-netty/go-netty/transport/tcp"
 )
 
 // C13 over the real TCP factory on the loopback interface: Listen, Async, k client connections, Shutdown
@@ -45,7 +46,56 @@ func freePort() int {
 	return l.Addr().(*net.TCPAddr).Port
 }
 
+// a listener whose accept loop has failed on its own (the options of an accepted connection are rejected by the
+// kernel: keep-alive period of 12 h) must still be closed by Shutdown: the port is released
+func runC13tcpFatal() {
+	emit("#case c13tcp-fatal")
+	port := freePort()
+	if port == 0 {
+		emit("C13 tcp skip no-port")
+		return
+	}
+	bad := *tcp.DefaultOption
+	bad.KeepAlivePeriod = 12 * time.Hour
+	bs := netty.NewBootstrap(netty.WithChildInitializer(func(ch netty.Channel) {}))
+	addr := fmt.Sprintf("127.0.0.1:%d", port)
+	done := make(chan error, 1)
+	bs.Listen("tcp://"+addr, tcp.WithOptions(&bad)).Async(func(err error) { done <- err })
+	var c net.Conn
+	deadline := time.Now().Add(2 * time.Second)
+	for time.Now().Before(deadline) {
+		var err error
+		if c, err = net.DialTimeout("tcp", addr, 200*time.Millisecond); err == nil {
+			break
+		}
+		time.Sleep(2 * time.Millisecond)
+	}
+	failed := false
+	select {
+	case err := <-done:
+		failed = err != nil
+	case <-time.After(2 * time.Second):
+	}
+	if c != nil {
+		c.Close()
+	}
+	if !failed {
+		emit("C13 tcp skip accept-did-not-fail") // a kernel that accepts the period: nothing to observe
+		bs.Shutdown()
+		return
+	}
+	bs.Shutdown()
+	time.Sleep(5 * time.Millisecond)
+	redial := "refused"
+	if c2, err := net.DialTimeout("tcp", addr, 300*time.Millisecond); err == nil {
+		redial = "accepted"
+		c2.Close()
+	}
+	emit("C13 tcp early=0 clients=0 sync=closed eof=0 redial=%s active=0 inactive=0 ctx=1", redial)
+}
+
 func runC13tcp(seed int64, count int) {
+	runC13tcpFatal()
 	rng := rand.New(rand.NewSource(seed))
 	for cs := 0; cs < count; cs++ {
 		emit("#case c13tcp-%d", cs)
